@@ -148,6 +148,14 @@ def gIsLegacy (h : Heap) : Nat → Nat → Val → Res
       | x => x
     | x => x
 
+/-- `x.Unwrap()` of the `errors.Is` loop: gerror values unwrap to their factory back-reference
+(`(*GError).Unwrap`, promoted on extension types), foreign errors to what they wrap -/
+def unwrap (h : Heap) : Val → Val
+  | .base a => (obj h a).factoryRef
+  | .ext _ a => (obj h a).factoryRef
+  | .foreign _ _ w => w
+  | .nil => .nil
+
 /-- the `errors.Is` loop (`errors.is`), parameterised by the `Is` method of gerror values -/
 def errorsIsLoop (is : Nat → Nat → Val → Res) (h : Heap) : Nat → Val → Val → Bool → Res
   | 0, _, _, _ => .fuel
@@ -163,11 +171,7 @@ def errorsIsLoop (is : Nat → Nat → Val → Res) (h : Heap) : Nat → Val →
       | .t => .t
       | .f =>
         -- err = x.Unwrap(); if err == nil { return false }
-        let u := match err with
-          | .base a => (obj h a).factoryRef
-          | .ext _ a => (obj h a).factoryRef
-          | .foreign _ _ w => w
-          | .nil => .nil
+        let u := unwrap h err
         if u = .nil then .f else errorsIsLoop is h n u target cmp
       | x => x
     | x => x
